@@ -16,6 +16,8 @@ import LiteFSVerif.Gen.Ints
 import LiteFSVerif.Model.Recovery
 import LiteFSVerif.Props.C05
 import LiteFSVerif.Proofs.Wal
+import LiteFSVerif.Gen.Skel
+import LiteFSVerif.Model.ExpectedSkel
 
 set_option linter.unusedSimpArgs false
 
@@ -198,5 +200,14 @@ theorem C17_valid_page_sizes_aligned (n : Nat) (h : Sqlite.validPageSize n = tru
   unfold Sqlite.validPageSize at h
   simp only [List.contains_cons, List.contains_nil, Bool.or_false, Bool.or_eq_true, beq_iff_eq] at h
   omega
+
+/-- the control skeletons (branch conditions, loop heads, returns, order of calls and of state
+    assignments) of `JournalReader.Next`, `JournalReader.ReadFrame`, regenerated from the current source on every run, are the ones the
+    model was written and validated against (Model/ExpectedSkel.lean): a reordered, dropped or
+    altered check or call in these functions breaks this theorem -/
+theorem C17_source_skeletons :
+    Gen.Skel.JournalReader_Next = Expected.Skel.JournalReader_Next ∧
+    Gen.Skel.JournalReader_ReadFrame = Expected.Skel.JournalReader_ReadFrame :=
+  ⟨rfl, rfl⟩
 
 end LiteFSVerif.C17
